@@ -27,6 +27,7 @@ type Commit struct {
 	Kind   string // "batch" | "put" | "delete" | "deleterange"
 	Ops    int    // operations recorded in the batch (1 for direct writes)
 	Failed bool   // the injected error was returned, nothing reached the engine
+	Bytes  int    // Size() of the batch when it was committed (0 for direct writes)
 }
 
 type DB struct {
@@ -37,6 +38,9 @@ type DB struct {
 	failAt  int // absolute number of the write to fail (0 = none)
 	Log     []Commit
 	OnWrite func(c Commit) // called after each write attempt (after it reached the engine, or failed)
+	// BeforeWrite is called when the proxy sees a write, before it is forwarded to the engine (or failed):
+	// whatever the engine holds at that moment is what a crash at the start of the commit leaves behind.
+	BeforeWrite func(c Commit)
 }
 
 func New(inner db.KeyValueStore) *DB { return &DB{KeyValueStore: inner} }
@@ -65,12 +69,19 @@ func (d *DB) Armed() bool { d.mu.Lock(); defer d.mu.Unlock(); return d.failAt > 
 func (d *DB) ResetLog() { d.mu.Lock(); d.Log = nil; d.mu.Unlock() }
 
 // commit runs one write attempt: do() performs it on the engine.
-func (d *DB) commit(kind string, ops int, do func() error) error {
+func (d *DB) commit(kind string, ops int, do func() error, size ...int) error {
 	d.mu.Lock()
 	d.n++
 	c := Commit{N: d.n, Kind: kind, Ops: ops}
+	if len(size) > 0 {
+		c.Bytes = size[0]
+	}
 	fail := d.failAt == d.n
+	pre := d.BeforeWrite
 	d.mu.Unlock()
+	if pre != nil {
+		pre(c)
+	}
 	var err error
 	if fail {
 		c.Failed = true
@@ -112,7 +123,7 @@ func (b *batch) Put(k, v []byte) error       { b.ops++; return b.IndexedBatch.Pu
 func (b *batch) Delete(k []byte) error       { b.ops++; return b.IndexedBatch.Delete(k) }
 func (b *batch) DeleteRange(x, y []byte) error { b.ops++; return b.IndexedBatch.DeleteRange(x, y) }
 func (b *batch) Write() error {
-	return b.d.commit("batch", b.ops, func() error { return b.IndexedBatch.Write() })
+	return b.d.commit("batch", b.ops, func() error { return b.IndexedBatch.Write() }, b.IndexedBatch.Size())
 }
 
 // plain (non-indexed) batch: the engine's db.Batch has no read methods; wrap it separately so that the
@@ -127,7 +138,7 @@ func (b *plainBatch) Put(k, v []byte) error       { b.ops++; return b.Batch.Put(
 func (b *plainBatch) Delete(k []byte) error       { b.ops++; return b.Batch.Delete(k) }
 func (b *plainBatch) DeleteRange(x, y []byte) error { b.ops++; return b.Batch.DeleteRange(x, y) }
 func (b *plainBatch) Write() error {
-	return b.d.commit("batch", b.ops, func() error { return b.Batch.Write() })
+	return b.d.commit("batch", b.ops, func() error { return b.Batch.Write() }, b.Batch.Size())
 }
 
 func (d *DB) NewBatch() db.Batch { return &plainBatch{Batch: d.KeyValueStore.NewBatch(), d: d} }
